@@ -9,12 +9,16 @@ void w_sha_write(const secp256k1_hash_ctx *hc, secp256k1_sha256 *h, const unsign
 void w_sha_finalize(const secp256k1_hash_ctx *hc, secp256k1_sha256 *h, unsigned char *out32) { (void)hc; (void)h; __CPROVER_assert(__CPROVER_w_ok(out32, 32), "sha256_finalize writes 32 bytes"); __CPROVER_havoc_slice(out32, 32); }
 void harness_borromean(void) {
     secp256k1_hash_ctx hc; unsigned char e0[32], m[32]; secp256k1_scalar s[128], ev[128]; secp256k1_gej pubs[128]; size_t rsizes[32]; size_t nrings = nondet_size_t(), i, tot = 0; int want_ev = nondet_uchar() & 1, ret;
+#ifdef MANT
+    nrings = (MANT + 1) / 2; for (i = 0; i < nrings; i++) { rsizes[i] = (i + 1 < nrings || !(MANT & 1)) ? 4 : 2; tot += rsizes[i]; }
+#else
     __CPROVER_assume(nrings >= 1 && nrings <= 32);
     for (i = 0; i < 32; i++) if (i < nrings) { __CPROVER_assume(rsizes[i] == 1 || rsizes[i] == 2 || rsizes[i] == 4); tot += rsizes[i]; }
     __CPROVER_assume(tot <= 128);
+#endif
     ret = secp256k1_borromean_verify(&hc, want_ev ? ev : NULL, e0, s, pubs, rsizes, nrings, m, 32);
     __CPROVER_assert(ret == 0 || ret == 1, "boolean");
 #ifdef WITNESS
-    __CPROVER_assert(!(ret == 1 && tot == 128), "witness: accept with 128 members reachable");
+    __CPROVER_assert(!(ret == 1), "witness: accept reachable");
 #endif
 }
